@@ -400,7 +400,7 @@ func (p *proxyObject) proxyDefineOwnPropertyPostCheck(prop Value, target *Object
 		if settingConfigFalse && targetDesc.configurable {
 			panic(p.val.runtime.NewTypeError())
 		}
-		if targetDesc.value != nil && !targetDesc.configurable && targetDesc.writable {
+		if !targetDesc.accessor && !targetDesc.configurable && targetDesc.writable {
 			if descr.Writable == FLAG_FALSE {
 				panic(p.val.runtime.NewTypeError())
 			}
